@@ -349,6 +349,39 @@ Theorem constructed_geometries_wellformed :
 Proof. exact constructed_wf_l. Qed.
 Print Assumptions constructed_geometries_wellformed.
 
+(* ============ 10. building a geometry from a transformation matrix (frommatrix) ============ *)
+(* For a rotation matrix m and a translation t, whenever frommatrix succeeds, every absolute vector of
+   the new geometry is  t + m (vector of the class-default geometry)  -- for all angles, shifts and
+   detector parameters.  2-d classes: rotations commute; axis-oriented 3-d class: the rotation about
+   the image axis is the conjugate  R_{m ax}(a) m = m R_ax(a)  (proved for every rotation m). *)
+Theorem parallel2d_frommatrix : forall m (tr : R * R) (g : par2d) (a : R * R) (u : R) (cs : R * R),
+  is_rot2 m -> par2d_frommatrix sqrt m tr = Some g ->
+  par2d_detpoint g a (u, cs) = add2 tr (mv2 m (par2d_detpoint par2d_default a (u, cs))) /\
+  par2d_det_axis g a = mv2 m (par2d_det_axis par2d_default a) /\
+  p2_tr g = tr.
+Proof. exact par2d_frommatrix_spec. Qed.
+Print Assumptions parallel2d_frommatrix.
+
+Theorem fanbeam_frommatrix : forall (rs rd : R) m (tr : R * R) (g : fan) (a : R * R) (ssh dsh : R * R) (u : R) (cs : R * R),
+  is_rot2 m -> fan_frommatrix sqrt rs rd None m tr = Some g ->
+  fan_detpoint g a dsh (u, cs) = add2 tr (mv2 m (fan_detpoint (fan_default rs rd) a dsh (u, cs))) /\
+  fan_src g a ssh = add2 tr (mv2 m (fan_src (fan_default rs rd) a ssh)) /\
+  fan_det_axis g a = mv2 m (fan_det_axis (fan_default rs rd) a).
+Proof. exact fan_frommatrix_spec. Qed.
+Print Assumptions fanbeam_frommatrix.
+
+Theorem rodrigues_conjugation : forall m (ax : R * R * R) (a : R * R) (v : R * R * R), is_rot3 m ->
+  mv3 (axis_rot (mv3 m ax) a) (mv3 m v) = mv3 m (mv3 (axis_rot ax a) v).
+Proof. exact axis_rot_conj. Qed.
+Print Assumptions rodrigues_conjugation.
+
+Theorem parallel3d_axis_frommatrix : forall m (tr : R * R * R) (g : par3a) (a : R * R) (p : dpar3),
+  is_rot3 m -> par3a_frommatrix sqrt m tr = Some g ->
+  par3a_detpoint g a p = add3 tr (mv3 m (par3a_detpoint par3a_default a p)) /\
+  pa_axis g = mv3 m (0, 0, 1) /\ pa_tr g = tr.
+Proof. exact par3a_frommatrix_spec. Qed.
+Print Assumptions parallel3d_axis_frommatrix.
+
 (* =========== non-vacuity: the hypotheses above are met by objects the code builds =========== *)
 From Coq Require Import QArith.
 From Verif Require Import C19.Corr.
@@ -377,3 +410,9 @@ Example rodrigues_instance :
   let m := axis_rot ((3 # 13), (4 # 13), (12 # 13))%Q ((3 # 5), (4 # 5))%Q in
   (fm3 (mm3 (tr3 m) m)) = [1; 0; 0; 0; 1; 0; 0; 0; 1]%Q /\ det3 m = 1%Q.
 Proof. vm_compute. split; reflexivity. Qed.
+(* frommatrix succeeds for a rational rotation matrix (executed) *)
+Example frommatrix_instance :
+  (match par2d_frommatrix Qsqrt (((3 # 5), (-4 # 5)), ((4 # 5), (3 # 5)))%Q (1, 2)%Q with Some _ => true | None => false end) = true /\
+  (match par3a_frommatrix Qsqrt ((1, 0, 0), (0, (3 # 5), (-4 # 5)), (0, (4 # 5), (3 # 5)))%Q (1, 2, 3)%Q with
+   Some _ => true | None => false end) = true.
+Proof. split; vm_compute; reflexivity. Qed.
